@@ -31,7 +31,7 @@ THEOREMS = {
     "C01": ["C01_decoders_agree", "C03_decoder_follows_format", "C17_parse_inverts_write", "ex_frame_roundtrip"],
     "C02": ["C02_reference_decoder_accepts", "C17_parse_inverts_write", "crc16_append", "crc8_append"],
     "C03": ["C03_decoder_follows_format", "C17_parse_inverts_write", "ex_frame_spec"],
-    "C04": ["C04_frame_total_release", "C04_stream_total_release", "C04_frame_progress"],
+    "C04": ["C04_frame_total", "C04_stream_total", "C04_frame_progress"],
     "C05": BASE_THEOREMS + ["crc16_single_bit", "crc16_append", "crc8_append"],
     "C14": ["C04_frame_progress", "C03_decoder_follows_format"],
     "C16": ["C03_decoder_follows_format", "C17_parse_inverts_write"],
@@ -66,7 +66,8 @@ def build_driver(chk):
     for f in ("codec_model.ml", "codec_model.mli"):
         shutil.copy(os.path.join(CODEC, f), mdir)
     shutil.copy(os.path.join(VERIF, "ocaml", "codec_driver.ml"), mdir)
-    okb, exe, bout = vlib.ocaml_build(mdir, ["codec_model.mli", "codec_model.ml", "codec_driver.ml"], "codec_driver")
+    shutil.copy(os.path.join(VERIF, "ocaml", "codec_gen.ml"), mdir)
+    okb, exe, bout = vlib.ocaml_build(mdir, ["codec_model.mli", "codec_model.ml", "codec_gen.ml", "codec_driver.ml"], "codec_driver")
     if not okb:
         chk.broken_tie("ocaml-build:codec", bout)
         exe = None
@@ -159,3 +160,36 @@ def compare(case, r):
             note = "error variant: impl %s model %s" % (case["end"], r["end"])
         return None, note
     return None, None
+
+
+def model_streams(chk, count=None):
+    """Valid-by-construction streams for C03: the OCaml generator (ocaml/codec_gen.ml) chooses every
+    syntactic alternative of the frame grammar independently and derives residuals from arbitrary
+    target PCM; the extracted Coq writer serialises; only trees accepted by the extracted Coq
+    predicates wf_frame && spec_frame are kept; the expected PCM is sem_frame of the tree.
+    Returns a list of {"id","bytes","kind","expect","md5"} (kind dec_stream|dec_subset)."""
+    exe = build_driver(chk)
+    if exe is None:
+        return []
+    n = count or (400 if chk.tier == "thorough" else 90)
+    reqs = []
+    shards = 8
+    for k in range(shards):
+        reqs.append({"kind": "gen", "seed": chk.seed * 1000 + k, "count": max(1, n * 2 // (3 * shards))})
+        reqs.append({"kind": "gen", "seed": chk.seed * 1000 + k, "count": max(1, n // (3 * shards)), "mode": "subset"})
+    import concurrent.futures
+
+    def work(req):
+        rc, out = sh("ulimit -s unlimited 2>/dev/null || ulimit -s 1000000; exec %s" % exe, stdin=json.dumps(req) + "\n", timeout=1500)
+        return [json.loads(l) for l in out.split("\n") if l.startswith('{"id"')]
+
+    res = []
+    with concurrent.futures.ThreadPoolExecutor(max_workers=vlib.NCPU) as ex:
+        for r in ex.map(work, reqs):
+            res.extend(r)
+    for r in res:
+        r["id"] = r["kind"].split(":")[0] + "-" + r["id"]
+        k = r["kind"].split(":")
+        r["kind"] = k[0]
+        r["md5"] = k[1] if len(k) > 1 else ""
+    return res
